@@ -19,6 +19,24 @@ Proof.
   rewrite Forall_forall in Ho. exact (Ho (v, b, r) Hin).
 Qed.
 
+(* the lock discipline behind it, for every schedule: while the handler or a clearer holds the write lock no
+   reader holds the lock; readers only hold it between whole rounds; whenever the lock is free or held by readers
+   the cell is exactly the whole rounds base..r-1 (r = the handler's next round) *)
+Theorem c20_lock_discipline : forall nrounds m nr nc sched,
+  let s := texec nrounds m nr nc sched in
+  base s <= hround (hd s) /\
+  match lk s with
+  | Free => (exists r, hd s = HIdle r) /\ count is_rhold (rds s) = 0 /\ count is_chold (cls s) = 0 /\
+            cell s = rounds_state m (base s) (hround (hd s))
+  | Readers n => (exists r, hd s = HIdle r) /\ count is_rhold (rds s) = n /\ 0 < n /\ count is_chold (cls s) = 0 /\
+                 cell s = rounds_state m (base s) (hround (hd s))
+  | Writer => count is_rhold (rds s) = 0
+  end.
+Proof.
+  intros nrounds m nr nc sched s. destruct (exec_inv nrounds m nr nc sched) as (Hb & Hl & _).
+  fold s in Hb, Hl. split; [exact Hb|]. destruct (lk s); [exact Hl|exact Hl|exact (proj1 Hl)].
+Qed.
+
 (* non-vacuity: a reader blocked while the handler writes observes exactly round 0; after a clear between
    the rounds the next snapshot holds round 1 only (base 1) *)
 Example c20_example :
